@@ -89,7 +89,9 @@ def model_fields(c):
         return ["init"]
     if k == "new":
         return ["new", hx(c["name"]), str(c["meta"])]
-    if k in ("refresh", "spill", "repair", "logclear", "inspect"):
+    if k == "refresh":
+        return ["refresh", hx(c["patch"]) if c.get("patch") is not None else "_"]
+    if k in ("spill", "repair", "logclear", "inspect"):
         return [k]
     if k == "push":
         return ["push", rng("ranges"), num("n"), fl, conf]
@@ -160,6 +162,8 @@ def stg_argv(c):
         return ["init"]
     if k == "new":
         return ["new", "-m", "x%d msg" % c["meta"], esc(c["name"])]
+    if k == "refresh" and c.get("patch") is not None:
+        return ["refresh", "-p", esc(c["patch"])]
     if k in ("refresh", "spill", "repair"):
         return [k]
     if k == "logclear":
